@@ -119,6 +119,14 @@ const TOT_NUM_ACCUM_BITS: u32 = 24;
 /// Note that the lookup table size MUST be a power of 2
 const NUM_LUT_INDEX_BITS: u32 = ilog_2(lookup_tables::SINE_LUT_SIZE);
 
+#[cfg(feature = "verif-hooks")]
+impl Lfo {
+    /// The complete internal state as raw words, for the verification harness (state identity only)
+    pub fn verif_key(&self) -> [u32; 5] {
+        self.phase_accumulator.verif_raw()
+    }
+}
+
 #[cfg(test)]
 mod tests {
     use super::*;
